@@ -45,6 +45,26 @@ def fn_ranges(path):
     return out
 
 
+def scan_trusted(path):
+    """Mechanical scan of the generated file for everything Verus takes on trust: external_body
+    items, assume_specification, uninterpreted spec functions, and (never allowed) assume / admit."""
+    import re
+    src = open(path, encoding="utf-8").read()
+    # drop comments
+    src = re.sub(r"//[^\n]*", "", src)
+    out = []
+    for m in re.finditer(r"#\[verifier::external_body\]\s*(?:#\[[^\]]*\]\s*)*(?:pub\s+)?(?:broadcast\s+)?(?:proof\s+)?(fn|struct)\s+(\w+)", src):
+        out.append(("external_body " + m.group(1), m.group(2)))
+    for m in re.finditer(r"assume_specification\s*(?:<[^\[]*>)?\s*\[\s*([^\]]+?)\s*\]", src):
+        out.append(("assume_specification", re.sub(r"\s+", " ", m.group(1))))
+    for m in re.finditer(r"uninterp\s+spec\s+fn\s+(\w+)", src):
+        out.append(("uninterp spec fn", m.group(1)))
+    forbidden = []
+    for m in re.finditer(r"\b(admit|assume)\s*\(", src):
+        forbidden.append(m.group(1))
+    return sorted(set(out)), forbidden
+
+
 def run_unit(template, repo, workdir, name=None, canary=False, extra_args=(), timeout=600, seed=None):
     name = name or os.path.splitext(os.path.basename(template))[0]
     if canary:
@@ -64,6 +84,10 @@ def run_unit(template, repo, workdir, name=None, canary=False, extra_args=(), ti
         res["error"] = str(e)
         res["wall_s"] = time.time() - t0
         return res
+    try:
+        res["trusted"], res["forbidden"] = scan_trusted(out_rs)
+    except Exception:
+        res["trusted"], res["forbidden"] = [], []
     cmd = ["verus", out_rs, "--output-json", "--time-expanded", "--error-format=json", "--multiple-errors", "50"]
     if seed is not None:
         cmd += ["--smt-option", f"smt.random_seed={int(seed) % 1000000}"]
